@@ -794,6 +794,12 @@ pub fn replay(path: &str) -> i32 {
         Some(v) => {
             let same = doc["kind"].as_str() == Some(v.kind.as_str()) && doc["site"].as_str() == Some(v.site.as_str());
             println!("{}: {} / {} : {}", if same { "REPRODUCED" } else { "DIFFERENT-VIOLATION" }, v.kind, v.site, v.message);
+            // a listed finding stays a listed finding when its file is replayed
+            let known = known::load().unwrap_or_default();
+            if let Some(k) = known::matches(&known, &v, &spec) {
+                println!("KNOWN-FINDING: property={} {} [{}] ({}/{}) replay={}", v.property, k.what, k.id, v.kind, v.site, path);
+                return 0;
+            }
             println!("VIOLATION property={} replay={}", v.property, path);
             1
         }
